@@ -169,6 +169,19 @@ def view_ShardAccount (v : Val) : Val :=
   Rd.obj "ShardAccount" [("account", view_Account (v.get "account")), ("last_trans_hash", v.get "last_trans_hash"),
     ("last_trans_lt", v.get "last_trans_lt")]
 
+/-- the leaves of a `BinTree X` value, left to right -/
+def btLeaves (w : Val → Val) : Nat → Val → List Val
+  | 0, _ => []
+  | _+1, .con "bt_leaf" x => [w x]
+  | fuel+1, .con "bt_fork" r => btLeaves w fuel (r.get "left") ++ btLeaves w fuel (r.get "right")
+  | _+1, _ => []
+
+/-- `BinTree` object: `.list` = the leaves -/
+def viewBinTree (w : Val → Val) (tv : Val) : Val := Rd.obj "BinTree" [("list", Rd.list (btLeaves w 64 tv))]
+
+/-- `deserialize_shard_hashes`: `None` (empty) or the dict workchain ↦ BinTree of parsed ShardDescr -/
+def view_ShardHashes : Val → Val := viewDict (viewBinTree view_ShardDescr) 32
+
 /-- `ShardAccounts.deserialize` returns the `(dict, extras)` tuple of `load_hashmap_aug_e` -/
 def view_ShardAccounts : Val → Val := viewAugE view_ShardAccount view_DepthBalanceInfo 256
 
@@ -184,6 +197,22 @@ def view_BlockCreateStats : Val → Val
     Rd.obj "BlockCreateStats" [("type_", Rd.str "block_create_stats_ext"),
       ("counters", viewAugE view_CreatorStats id 256 (x.get "counters"))]
   | _ => .unit
+
+/-- `ConfigParams`: `config` = the inline `Hashmap 32 ^Cell` behind the reference as a dict signed parameter number ↦ Slice over the
+    parameter's cell, in walk order -/
+def view_ConfigParams (v : Val) : Val :=
+  Rd.obj "ConfigParams" [("config_addr", Rd.hex (v.get "config_addr")),
+    ("config", Rd.dictS (flattenF (fun c => .con "slice" c) 33 32 [] (v.get "config")))]
+
+/-- `McStateExtra`: the fields of the `^[ … ]` group arrive flattened; `block_create_stats` is `None` unless `flags . 0` -/
+def view_McStateExtra (v : Val) : Val :=
+  let r := v.get "_ref1"
+  Rd.obj "McStateExtra" [("shard_hashes", view_ShardHashes (v.get "shard_hashes")), ("config", view_ConfigParams (v.get "config")),
+    ("flags", r.get "flags"), ("validator_info", view_ValidatorInfo (r.get "validator_info")),
+    ("prev_blocks", view_OldMcBlocksInfo (r.get "prev_blocks")), ("after_key_block", r.get "after_key_block"),
+    ("last_key_block", viewMaybe view_ExtBlkRef (r.get "last_key_block")),
+    ("block_create_stats", viewMaybe view_BlockCreateStats (r.get "block_create_stats")),
+    ("global_balance", Tx.view_CurrencyCollection (v.get "global_balance"))]
 
 end Blk
 end TonVerif.Tlb
